@@ -17,6 +17,7 @@ mod gen_xml;
 mod c14;
 mod c15;
 mod c20;
+mod fsrun;
 
 fn main() {
     let suite = std::env::args().nth(1).expect("suite");
@@ -58,6 +59,9 @@ fn dispatch(suite: &str, case: &Value) -> Value {
         "c14" => c14::run(case),
         "c15" => c15::run(case),
         "c20" => c20::run(case),
+        "fs" => fsrun::run(case),
+        "fspath" => fsrun::run_path(case),
+        "c19" => fsrun::run_c19(case),
         _ => panic!("unknown suite {suite}"),
     }
 }
